@@ -5,6 +5,8 @@ package main
 //	expand <msg> <msg> ...        one sequence (one decoder, one accumulator) made of these wire messages
 //	                              → on <msg>... off <msg>...   (decoded with expansion on / with WithNoComponentExpansion)
 //	                              | err:<class>
+//	                              a token "/" ends a sequence: the following messages are the next FIT sequence of the SAME
+//	                              stream (chained file, one decoder, Next/Decode); the answer carries "/" at the same places
 //	expandx <idx> <lo> <n> <msg>  the template message with the scalar field at index <idx> taking every raw value
 //	                              lo..lo+n-1 in turn: n messages in ONE sequence, expansion on
 //	                              → n=<n> digest=<FNV-1a-64 over the printed decoded messages, each followed by '\n'>
@@ -78,16 +80,59 @@ func exEncode(msgs []proto.Message) ([]byte, bool) {
 	return append(out, byte(crc), byte(crc>>8)), true
 }
 
-func exDecode(b []byte, expand bool) ([]proto.Message, error) {
+// exDecode decodes every sequence of the stream with ONE decoder; the messages of the sequences are returned per sequence.
+func exDecode(b []byte, expand bool) ([][]proto.Message, error) {
 	var opts []decoder.Option
 	if !expand {
 		opts = append(opts, decoder.WithNoComponentExpansion())
 	}
-	fit, err := decoder.New(bytes.NewReader(b), opts...).Decode()
-	if err != nil {
-		return nil, err
+	dec := decoder.New(bytes.NewReader(b), opts...)
+	var res [][]proto.Message
+	for dec.Next() {
+		fit, err := dec.Decode()
+		if err != nil {
+			return nil, err
+		}
+		res = append(res, fit.Messages)
 	}
-	return fit.Messages, nil
+	return res, nil
+}
+
+// exSplit splits the operation's tokens at "/" into sequences of messages.
+func exSplit(args []string) ([][]proto.Message, bool) {
+	seqs := [][]proto.Message{nil}
+	for _, a := range args {
+		if a == "/" {
+			seqs = append(seqs, nil)
+			continue
+		}
+		m, ok := parseMessage(a)
+		if !ok {
+			return nil, false
+		}
+		seqs[len(seqs)-1] = append(seqs[len(seqs)-1], m)
+	}
+	return seqs, true
+}
+
+func exEncodeSeqs(seqs [][]proto.Message) ([]byte, bool) {
+	var out []byte
+	for _, ms := range seqs {
+		b, ok := exEncode(ms)
+		if !ok {
+			return nil, false
+		}
+		out = append(out, b...)
+	}
+	return out, true
+}
+
+func exPrintSeqs(seqs [][]proto.Message) string {
+	parts := make([]string, 0, len(seqs))
+	for _, ms := range seqs {
+		parts = append(parts, exPrintMsgs(ms))
+	}
+	return strings.Join(parts, " / ")
 }
 
 func exPrintMsgs(ms []proto.Message) string {
@@ -99,15 +144,11 @@ func exPrintMsgs(ms []proto.Message) string {
 }
 
 func execExpand(args []string) string {
-	msgs := make([]proto.Message, 0, len(args))
-	for _, a := range args {
-		m, ok := parseMessage(a)
-		if !ok {
-			return "bad-op"
-		}
-		msgs = append(msgs, m)
+	seqs, ok := exSplit(args)
+	if !ok {
+		return "bad-op"
 	}
-	b, ok := exEncode(msgs)
+	b, ok := exEncodeSeqs(seqs)
 	if !ok {
 		return "bad-op"
 	}
@@ -119,7 +160,10 @@ func execExpand(args []string) string {
 	if err != nil {
 		return decErrClass(err)
 	}
-	return strings.TrimSpace("on " + exPrintMsgs(on) + " off " + exPrintMsgs(off))
+	if len(on) != len(seqs) || len(off) != len(seqs) {
+		return "err:sequence-count"
+	}
+	return strings.Join(strings.Fields("on "+exPrintSeqs(on)+" off "+exPrintSeqs(off)), " ")
 }
 
 // exSetScalar returns the value of the same scalar type holding the raw pattern.
@@ -171,10 +215,14 @@ func execExpandX(args []string) string {
 	if !ok {
 		return "bad-op"
 	}
-	on, err4 := exDecode(b, true)
+	ons, err4 := exDecode(b, true)
 	if err4 != nil {
 		return decErrClass(err4)
 	}
+	if len(ons) != 1 {
+		return "err:sequence-count"
+	}
+	on := ons[0]
 	d := uint64(0xcbf29ce484222325)
 	for i := range on {
 		s := printMessage(&on[i]) + "\n"
@@ -267,10 +315,11 @@ func exFaithful(msgs []proto.Message) bool {
 	if !ok {
 		return false
 	}
-	off, err := exDecode(b, false)
-	if err != nil || len(off) != len(msgs) {
+	offs, err := exDecode(b, false)
+	if err != nil || len(offs) != 1 || len(offs[0]) != len(msgs) {
 		return false
 	}
+	off := offs[0]
 	for i := range msgs {
 		if printMessage(&off[i]) != printMessage(&msgs[i]) {
 			return false
@@ -303,6 +352,45 @@ func genExpand(emit func(string), tier string, rng *Rng) {
 			return fields
 		}
 		ref.Value = soMkValue(ty, uint64(m.RefFieldValue))
+		return append([]proto.Field{ref}, fields...)
+	}
+	// a destination of one of the owner's components may itself be a dynamic field whose SUB-FIELD owns components
+	// (event.data16 -> event.data, whose gear_change_data sub-field is selected by event = front/rear_gear_change):
+	// put the reference field of such a sub-field in front, so that the recursion goes through the sub-field
+	withDestRef := func(o exOwner, fields []proto.Field) []proto.Field {
+		comps := o.field.Components
+		if o.sub != nil {
+			comps = o.sub.Components
+		}
+		type cand struct{ m proto.SubFieldMap }
+		var cands []cand
+		for _, c := range comps {
+			d := factory.StandardFactory().CreateField(o.mesgNum, c.FieldNum)
+			for i := range d.SubFields {
+				if len(d.SubFields[i].Components) == 0 {
+					continue
+				}
+				for _, m := range d.SubFields[i].Maps {
+					cands = append(cands, cand{m})
+				}
+			}
+		}
+		if len(cands) == 0 {
+			return fields
+		}
+		m := cands[rng.Intn(len(cands))].m
+		for i := range fields {
+			if fields[i].Num == m.RefFieldNum {
+				return fields
+			}
+		}
+		ref := factory.StandardFactory().CreateField(o.mesgNum, m.RefFieldNum)
+		ty, ok := soTyOfBT(ref.BaseType)
+		if !ok {
+			return fields
+		}
+		ref.Value = soMkValue(ty, uint64(m.RefFieldValue))
+		count("destination-subfield-ref")
 		return append([]proto.Field{ref}, fields...)
 	}
 	for _, o := range owners {
@@ -342,10 +430,11 @@ func genExpand(emit func(string), tier string, rng *Rng) {
 						}
 						msgs := []proto.Message{{Num: o.mesgNum, Fields: []proto.Field{f}}}
 						b, _ := exEncode(msgs)
-						on, err := exDecode(b, true)
-						if err != nil || len(on) != 1 || len(on[0].Fields) != 2 {
+						ons, err := exDecode(b, true)
+						if err != nil || len(ons) != 1 || len(ons[0]) != 1 || len(ons[0][0].Fields) != 2 {
 							continue
 						}
+						on := ons[0]
 						if _, ps, _ := soPatterns(on[0].Fields[1].Value.Any()); len(ps) == 1 && ps[0] != raw {
 							emitMsgs(msgs, "directed-single")
 							break
@@ -367,6 +456,9 @@ func genExpand(emit func(string), tier string, rng *Rng) {
 			}
 			f.Value = exValueFor(rng, f, n)
 			fields := withRef(o, []proto.Field{f})
+			if rng.Intn(2) == 0 {
+				fields = withDestRef(o, fields)
+			}
 			// sometimes the destination is present on the wire too (before or after the container)
 			if rng.Intn(4) == 0 {
 				comps := o.field.Components
@@ -481,6 +573,162 @@ func genExpand(emit func(string), tier string, rng *Rng) {
 			msgs = append(msgs, proto.Message{Num: o.mesgNum, Fields: fields})
 		}
 		emitMsgs(msgs, "history")
+	}
+	// 3b. histories mixing a WIRE value of an accumulated destination with samples of the accumulating component
+	//     (record.distance + compressed_speed_distance, hr.event_timestamp + event_timestamp_12, and every other
+	//     accumulating component of the profile): the destination alone in an earlier message, in the same message
+	//     before / after the container, and again later (re-seeding). The wire value is chosen so that it is a whole
+	//     number of the component's units (that is where the specification determines the total).
+	type accPair struct {
+		o  exOwner
+		ci int
+	}
+	var pairs []accPair
+	for _, o := range owners {
+		comps := o.field.Components
+		if o.sub != nil {
+			comps = o.sub.Components
+		}
+		for ci, c := range comps {
+			if c.Accumulate {
+				pairs = append(pairs, accPair{o, ci})
+			}
+		}
+	}
+	count(fmt.Sprintf("accumulating-components=%d", len(pairs)))
+	nm := 12
+	if thorough {
+		nm = 150
+	}
+	for _, pr := range pairs {
+		o := pr.o
+		comps := o.field.Components
+		if o.sub != nil {
+			comps = o.sub.Components
+		}
+		c := comps[pr.ci]
+		d := factory.StandardFactory().CreateField(o.mesgNum, c.FieldNum)
+		dty, ok := soTyOfBT(d.BaseType)
+		cty, ok2 := soTyOfBT(o.field.BaseType)
+		if !ok || !ok2 || d.Name == factory.NameUnknown {
+			continue
+		}
+		// a destination value that is a whole number of component units: total T (component units) -> v
+		seedVal := func() (uint64, bool) {
+			for try := 0; try < 40; try++ {
+				t := rng.U64() >> uint(36+rng.Intn(26))
+				if rng.Intn(3) == 0 {
+					t *= 4
+				}
+				x := ((float64(t)/c.Scale - c.Offset) + d.Offset) * d.Scale
+				if x >= 0 && x < 4294967295 && x == float64(uint64(x)) {
+					return uint64(x), true
+				}
+			}
+			return 0, false
+		}
+		destField := func() (proto.Field, bool) {
+			v, ok := seedVal()
+			if !ok {
+				return proto.Field{}, false
+			}
+			f := d
+			if d.Array {
+				n := 1 + rng.Intn(3)
+				ps := make([]uint64, n)
+				for q := range ps {
+					ps[q] = uint64(rng.Intn(5000))
+				}
+				ps[n-1] = v
+				f.Value = soMkSliceValue(dty, ps)
+			} else {
+				f.Value = soMkValue(dty, v)
+			}
+			return f, true
+		}
+		// a container whose components are non-zero samples
+		container := func() proto.Field {
+			var packed []byte
+			var cur uint64
+			var nb uint
+			for _, cc := range comps {
+				s := rng.U64() & (1<<uint(cc.Bits) - 1)
+				if s == 0 {
+					s = 1
+				}
+				cur |= s << nb
+				nb += uint(cc.Bits)
+				for nb >= 8 {
+					packed = append(packed, byte(cur))
+					cur >>= 8
+					nb -= 8
+				}
+			}
+			if nb > 0 {
+				packed = append(packed, byte(cur))
+			}
+			f := o.field
+			es := soTyBits[cty] / 8
+			if f.Array {
+				for len(packed)%es != 0 {
+					packed = append(packed, 0)
+				}
+				ps := make([]uint64, len(packed)/es)
+				for q := range ps {
+					for r := 0; r < es; r++ {
+						ps[q] |= uint64(packed[q*es+r]) << (8 * uint(r))
+					}
+				}
+				f.Value = soMkSliceValue(cty, ps)
+			} else {
+				var p uint64
+				for r := 0; r < len(packed) && r < 8; r++ {
+					p |= uint64(packed[r]) << (8 * uint(r))
+				}
+				f.Value = soMkValue(cty, p)
+			}
+			return f
+		}
+		for i := 0; i < nm; i++ {
+			var msgs []proto.Message
+			ln := 2 + rng.Intn(5)
+			for j := 0; j < ln; j++ {
+				var fields []proto.Field
+				switch k := rng.Intn(6); {
+				case j == 0 || k == 0: // the destination alone
+					if df, ok := destField(); ok {
+						fields = []proto.Field{df}
+					}
+				case k == 1: // destination before the container
+					if df, ok := destField(); ok {
+						fields = []proto.Field{df}
+					}
+					fields = append(fields, withRef(o, []proto.Field{container()})...)
+				case k == 2: // destination after the container
+					fields = withRef(o, []proto.Field{container()})
+					if df, ok := destField(); ok {
+						fields = append(fields, df)
+					}
+				default:
+					fields = withRef(o, []proto.Field{container()})
+				}
+				if len(fields) > 0 {
+					msgs = append(msgs, proto.Message{Num: o.mesgNum, Fields: fields})
+				}
+			}
+			if len(msgs) >= 2 && rng.Intn(4) == 0 {
+				// the same messages as TWO chained sequences of one stream: the totals do not carry over
+				cut := 1 + rng.Intn(len(msgs)-1)
+				if exFaithful(msgs[:cut]) && exFaithful(msgs[cut:]) {
+					emit("expand " + exPrintSeqs([][]proto.Message{msgs[:cut], msgs[cut:]}))
+					count("history-two-sequences")
+				} else {
+					count("dropped-unfaithful")
+				}
+				continue
+			}
+			emitMsgs(msgs, "history-wire-destination")
+		}
 	}
 	// 4. messages that own no components, unknown messages: expansion changes nothing
 	for i := 0; i < 60; i++ {
